@@ -23,7 +23,8 @@ EXPLANATION = (
     'assigned from "has a source" before that test on every path; (GRD.3) the object branch\'s was-present '
     'test reads the bit before anything overwrites it; (MPT.2) registration looks the node up, inserts only '
     'when it is missing and marks it registered on every return path; (OWN.1) moved pointers are nulled at '
-    'the source.  NOT decided: that values equal last good file plus defaults for every history.')
+    'the source.  NOT decided: that values equal last good file plus defaults for every history.'
+    ' Rounds 8-9: (WMC.2) the live root is set up member by member, never wiped as a whole; (GRD.6) typed parsers judge the text alone.')
 ASSUMPTIONS = ['clang 14 CFG', 'hooks are only installed by consumers, never by the config unit']
 
 
